@@ -621,6 +621,11 @@ class simulation_model():
 
         mymemo = self.memo[equation]
 
+        if isinstance(arg, float):
+            # snap the time to the simulation grid: chains of t - dt accumulate float error for decimal dt
+            # (0.3 - 0.1 - 0.1 - 0.1 > 0), which made stocks take extra integration steps
+            arg = round(self.starttime + round((arg - self.starttime) / self.dt) * self.dt, 10)
+
         if arg in mymemo.keys():
             return mymemo[arg]
         else:
